@@ -1,19 +1,30 @@
-// Package c01: STUB — property C01 is not built yet.
+// Package c01: property C01 over the shared exchange-machine harness (internal/pxy).
 package c01
 
-import "verif/harness/internal/core"
+import (
+	"verif/harness/internal/core"
+	"verif/harness/internal/pxy"
+)
 
 type P struct{}
 
 func init() { core.Register(P{}) }
 
-func (P) ID() string   { return "C01" }
-func (P) Rule() string { return "stub" }
-func (P) Gen(r *core.Rand, tier string, emit func([]string)) {}
-func (P) NewExec() core.Exec                                   { return ex{} }
-func (P) Nontrivial(ops []string, impl []string) bool         { return false }
+func (P) ID() string                                  { return "C01" }
+func (P) NewExec() core.Exec                          { return pxy.New() }
+func (P) Nontrivial(ops []string, impl []string) bool { return pxy.Nontrivial(ops, impl) }
 
-type ex struct{}
+func (P) Rule() string {
+	return "case = one client connection to a real martian.Proxy with no-op modifiers: 1..6 requests (methods, origin/absolute targets, 0..12 headers with repeats/odd case/empty values, bodies 0 B..64 KiB (MiB in thorough) by Content-Length or chunked) sent one at a time, pipelined in one write, or dribbled 7 bytes at a time; scripted raw origin (Content-Length, chunked, close-delimited, bodiless statuses, HEAD, gzip content-coding, Connection: close); distinct by op-list hash; non-trivial when >= 2 requests were served or the connection closed early"
+}
 
-func (ex) Do(op string) core.Result { return core.Result{Impl: "bad-op"} }
-func (ex) Close()                   {}
+func (P) Gen(r *core.Rand, tier string, emit func([]string)) {
+	n := 120
+	if tier == "thorough" {
+		n = 2500
+	}
+	pr := pxy.Profile{Rich: true, BigBodies: tier == "thorough"}
+	for i := 0; i < n; i++ {
+		emit(pxy.GenCase(r, pr))
+	}
+}
